@@ -28,7 +28,7 @@ STR_ID = 500
 
 def decoders():
     """names of every decoder the frozen table knows (registered at the pinned commit)."""
-    return sorted(n for n, v in D.table().items() if not v.get('unreachable'))
+    return D.decoder_names()
 
 
 def text_data(s):
